@@ -583,3 +583,6 @@ func (t *SchedTape) Choose(n int) int {
 
 // Used reports how many replayed values were consumed.
 func (t *SchedTape) Used() int { return t.pos }
+
+// State returns the PRNG state (see sim.Tape.State).
+func (t *SchedTape) State() uint64 { return t.state }
